@@ -32,16 +32,17 @@ type Profile struct {
 
 // Gen draws operations given the model state.
 type Gen struct {
-	P         *Profile
-	It        *Interp
-	qSeq      int
-	queue     []*Op // ops of a multi-step scenario still to be emitted
-	bulkDrawn bool
-	bigDone   bool
-	hot       uint16 // components preferred by this case, so that entities share archetypes
-	N         int    // planned number of ops
-	resetAt   int
-	burst     int
+	P           *Profile
+	It          *Interp
+	qSeq        int
+	queue       []*Op // ops of a multi-step scenario still to be emitted
+	bulkDrawn   bool
+	bulkObsDone bool
+	bigDone     bool
+	hot         uint16 // components preferred by this case, so that entities share archetypes
+	N           int    // planned number of ops
+	resetAt     int
+	burst       int
 }
 
 var defaultCaps = []int{1, 1, 2, 3, 4, 8, 16, 64}
@@ -261,6 +262,34 @@ func (g *Gen) Next(t *rapid.T) *Op {
 		op = g.genBatch(t, k)
 	case "filterNew":
 		op = g.genFilter(t)
+		if op != nil && op.FS != nil && op.FS.Inst >= 0 && FilterInsts[op.FS.Inst].Arity >= 3 && !locked && len(m.AliveList()) < g.P.MaxEnts-3 && len(g.queue) == 0 && rapid.Bool().Draw(t, "populateFilter") {
+			// a filter over many components rarely matches anything by chance: create two or three entities for it (same
+			// table; values differ), so that its typed query code runs over rows > 0
+			list := op.FS.List()
+			seen := map[int]bool{}
+			var cl []int
+			for _, c := range list {
+				if !seen[c] {
+					seen[c] = true
+					cl = append(cl, c)
+				}
+			}
+			var rels []RelSpec
+			for _, c := range cl {
+				if comps.All[c].Relation {
+					tg := g.pickTarget(t)
+					for _, r := range op.FS.Rels {
+						if r.C == c {
+							tg = r.T
+						}
+					}
+					rels = append(rels, RelSpec{C: c, T: tg, S: 2})
+				}
+			}
+			for i, n := 0, rapid.IntRange(2, 3).Draw(t, "populateN"); i < n; i++ {
+				g.queue = append(g.queue, &Op{K: "new", P: PUnsafe, Comps: cl, Vals: g.vals(len(cl)), Rels: rels})
+			}
+		}
 	case "filterReg":
 		op = g.genFilterReg(t)
 	case "query":
@@ -279,6 +308,10 @@ func (g *Gen) Next(t *rapid.T) *Op {
 		op = g.genObs(t)
 	case "obsReg":
 		op = g.genObsReg(t)
+		if !locked && !g.bulkObsDone && rapid.IntRange(0, 19).Draw(t, "bulkObservers") == 0 {
+			g.bulkObsDone = true
+			op = &Op{K: "bulkObs", Comps: []int{0}, N: rapid.SampledFrom([]int{64, 65, 255, 256, 257, 300}).Draw(t, "bulkObsN"), Mode: rapid.IntRange(0, 1).Draw(t, "bulkObsKeep")}
+		}
 	case "emit":
 		op = g.genEmit(t)
 	case "res":
@@ -480,6 +513,13 @@ func (g *Gen) genNew(t *rapid.T) *Op {
 					}
 				}
 			}
+		} else if rapid.IntRange(0, 11).Draw(t, "nearMiss") == 0 {
+			// all components of a drawn mapper (any arity) but one
+			mi := pickByArity(t, seq(len(MapInsts))[2*comps.N:], mapArity, "nearMissMapper")
+			l := append([]int{}, MapInsts[mi].Comps...)
+			k := rapid.IntRange(0, len(l)-1).Draw(t, "missing")
+			op.Comps = append(l[:k], l[k+1:]...)
+			op.Rels = g.relsFor(t, op.Comps)
 		} else {
 			op.Comps = g.biasRel(t, g.hotSubset(t, 0xffff, 0, 5, "comps"), 0)
 			op.Rels = g.relsFor(t, op.Comps)
